@@ -294,7 +294,16 @@ fn run_batch(cfg: &Value) -> Value {
     let mut transcripts: Vec<Transcript> = Vec::new();
     let mut members: Vec<Member> = Vec::new();
     for (i, mc) in members_cfg.iter().enumerate() {
-        members.push(build_member(i, n, x, mc, &mut picker, &mut transcripts));
+        // a validating constructor that refuses (or panics on) the scenario's valid parameters / statement is an outcome, not a harness failure:
+        // reported as a prover result so that the honest-scenario checks see "no proof" (and the replay sees the same on the real crates)
+        match catch_unwind(AssertUnwindSafe(|| build_member(i, n, x, mc, &mut picker, &mut transcripts))) {
+            Ok(mem) => members.push(mem),
+            Err(e) => {
+                let msg = e.downcast_ref::<String>().cloned().or_else(|| e.downcast_ref::<&str>().map(|s| s.to_string())).unwrap_or_default();
+                return json!({"members": [], "prove": [{"result": {"err": format!("constructing member {} failed: {}", i, msg)}}], "verify": Value::Null,
+                              "constructor_refused": true, "hook": Value::Null});
+            },
+        }
     }
     // prove
     #[cfg(feature = "model")]
